@@ -568,6 +568,14 @@ def _c18(tier, seed):
             continue
         runs.append({"engine": eng, "args": ["--abi"] + args, "cases": cq if q else ct_, "shards": N, "shared": True,
                      "timeout": 3600, "post": _abi_post})
+    # M-WRAP: the same workloads on the build in which every C-to-assembly call inside the library goes through a
+    # monitoring thunk (internal kernels whose C wrapper would hide a clobbered register from the API boundary)
+    for eng, cq, ct_ in (("mix", 8000, 200000), ("entry", 3000, 150000), ("abi", 4, 32), ("sgl", 800, 30000), ("ring", 600, 20000),
+                         ("reject", 1, 1), ("keys", 800, 30000)):
+        if eng == "abi" and not os.path.exists(os.path.join(os.path.dirname(os.path.dirname(os.path.abspath(__file__))),
+                                                             "harness", "eng_abi.c")):
+            continue
+        runs.append({"engine": eng, "args": ["--abi"], "cases": cq if q else ct_, "shards": N, "wrap": True, "timeout": 3600})
     return runs
 
 
@@ -585,8 +593,8 @@ PLANS["C18"] = {
              "(valid, NULL and over-limit arguments = SAFE_PARAM error exits) on the shared-library build, all 7 "
              "variants. distinct = distinct (variant, entry point, returned NULL/non-NULL, MXCSR value) tuples; lane "
              "states are counted separately in abi_lane_state (variant, call, cipher, hash, queue occupancy, outcome); "
-             "the dynamic symbols actually entered are compared with lib/libIPSec_MB.def. non-trivial = all."),
-    "floors": {"quick": {"tramp_calls": 2000000, "cov:C18": 4000, "cov:abi_lane_state": 30000,
+             "the dynamic symbols actually entered are compared with lib/libIPSec_MB.def. non-trivial = all. M-WRAP: the mix, entry, direct-API, SGL, ring, rejection and key-helper workloads also run on a build linked with --wrap for each of the ~676 assembly functions referenced from the library's C code; a thunk records rbx/rbp/r12-r15/rsp/MXCSR, hijacks the return address and compares on return (internal kernels, before their C caller can mask a clobbered register)."),
+    "floors": {"quick": {"tramp_calls": 2000000, "wrapped_asm_calls": 50000000, "wrapped_asm_symbols": 600, "cov:wrap_symbol_entered": 500, "cov:C18": 4000, "cov:abi_lane_state": 30000,
                          "exported_functions_entered_directly": 480}},
     "assumptions": ["exported per-architecture functions are reached through the manager's function pointers of the "
                     "matching variant; AVX2 t3/t4-only and exported-but-unreferenced symbols are listed in evidence "
